@@ -77,6 +77,24 @@ def gen_cases(seed, n):
             else:
                 p = {"t": "join", "ps": [{"t": "sub", "q": t1}, {"t": "sub", "q": t2}]}
             q = {"distinct": False, "star": True, "proj": [], "from": [], "fromnamed": [], "group": [], "order": [], "limit": -1, "p": p}
+        if i % 15 == 13:
+            # merged default graph: two or three FROM graphs (triples duplicated across them: the merge is duplicate-free) and joins
+            # in which several left rows probe the same triple
+            srcs = [G.GRAPHS[0], G.GRAPHS[1]]
+            quads = sorted(set(quads) | {(s_, p_, o_, G.GRAPHS[(k + 1) % 2]) for k, (s_, p_, o_, g_) in enumerate(quads) if g_ == "" and k % 2 == 0})
+            merged = sorted({(s_, p_, o_) for s_, p_, o_, g_ in quads if g_ in srcs})
+            V, C = G.V, G.C
+            preds = sorted({x[1] for x in merged if G.kind_of(x[2]) == "iri"}) or [G.P_IRI[0]]
+            P, Q = rng.choice(preds), rng.choice(preds)
+            shape = [[[V("a"), C(P), V("b")], [V("c"), C(P), V("b")]],
+                     [[V("a"), C(P), V("b")], [V("b"), C(Q), V("c")]],
+                     [[V("a"), V("c"), V("b")], [V("d"), V("c"), V("b")]],
+                     [[V("a"), C(P), V("b")], [V("a"), C(Q), V("c")], [V("c"), V("d"), V("b")]]][(i // 15) % 4]
+            ps = [{"t": "bgp", "tps": shape}]
+            if (i // 60) % 2:
+                ps.append({"t": "values", "vars": ["b"], "rows": [[C(x)] for x in sorted({t[2] for t in merged if G.kind_of(t[2]) == "iri"})[:3]] or [[C(G.IRIS[0])]]})
+            q = {"distinct": False, "star": True, "proj": [], "from": srcs + ([G.GRAPHS[2]] if (i // 15) % 2 else []), "fromnamed": [], "group": [], "order": [], "limit": -1,
+                 "p": {"t": "join", "ps": ps}}
         if i % 15 == 4:
             # twins: two union branches that differ in one detail deep inside (plan memo keys, caches by sub-plan shape)
             q = G.twin_query(rng, quads, G.TWIN_KINDS[(i // 15) % len(G.TWIN_KINDS)])
